@@ -31,7 +31,7 @@ type Series interface {
 /* -------------------------------------------------------------------------- */
 
 func SumSeries(series Series, init_value, factor float64, max_terms int) float64 {
-  result := 0.0
+  result := init_value
   for i := 0; i < max_terms; i++ {
     next_term := series.Eval()
     result    += next_term
